@@ -184,8 +184,32 @@ def run(model: RepoModel, rep, tier: str):
         for n in walk_no_nested(runf.node) if runf else []:
             if isinstance(n, ast.If) and any(isinstance(x, ast.Call) and call_name(x) in ("os.path.commonpath", "os.path.samefile") for x in ast.walk(n.test)):
                 caller_guard = True
-        if pruned or caller_guard:
-            rep.holds("C18.R4", key, PREP, cfg.stmt[w].lineno, "the workspace directory is pruned from the walk" if pruned else "caller tests containment")
+        # the comparison that prunes has to be made on resolved paths: a workspace reached through a symlink (or a `..`) must
+        # still be recognised
+        resolved = True
+        why = ""
+        if pruned:
+            for n in cfg.loop_body_nodes[w]:
+                st = cfg.stmt.get(n)
+                if cfg.kind[n] == "stmt" and isinstance(st, ast.Assign) and any(isinstance(t, ast.Subscript) and isinstance(t.value, ast.Name)
+                                                                                and t.value.id == dirs_var for t in st.targets):
+                    for cmp_ in [x for x in ast.walk(st.value) if isinstance(x, ast.Compare)]:
+                        for side in [cmp_.left] + list(cmp_.comparators):
+                            ok_side = isinstance(side, ast.Call) and call_name(side) in ("os.path.realpath", "os.path.samefile")
+                            if isinstance(side, ast.Name):
+                                defs = [a.value for a in walk_no_nested(ct.node) if isinstance(a, ast.Assign) and isinstance(a.targets[0], ast.Name)
+                                        and a.targets[0].id == side.id]
+                                ok_side = bool(defs) and all(isinstance(d, ast.Call) and call_name(d) == "os.path.realpath" for d in defs)
+                            if not ok_side:
+                                resolved = False
+                                why = norm(side)
+        if pruned and not resolved:
+            rep.violation("C18.R4", key, PREP, cfg.stmt[w].lineno,
+                          f"the walk prunes the workspace by comparing `{why}`, which is not a resolved path (os.path.realpath): a workspace "
+                          f"given through a symlink (`-w out` with out -> proj/build) is not recognised inside the input and the copy "
+                          f"recurses into itself")
+        elif pruned or caller_guard:
+            rep.holds("C18.R4", key, PREP, cfg.stmt[w].lineno, "the workspace directory is pruned from the walk (resolved paths compared)" if pruned else "caller tests containment")
         else:
             rep.violation("C18.R4", key, PREP, cfg.stmt[w].lineno,
                           "copytree_with_extension walks the input with os.walk and creates the copy under the workspace without pruning the "
@@ -238,6 +262,11 @@ def _t(old, new):
 
 
 MUTANTS = [
+    ("prune-compares-abspath", PREP, lambda src: src.replace("os.path.realpath(self.options.workspace)", "os.path.abspath(self.options.workspace)", 1)
+        .replace("os.path.realpath(os.path.join(root, d))", "os.path.abspath(os.path.join(root, d))", 1), "walk never descends"),
+    ("preprocess-original-files", PREP, _t("                    self.rescan_c_like_files(src_dir_path)",
+                                           "                    for src_file in self.dst_file_to_src_file.values():\n                        self.preprocess_c_like_file(src_file)"),
+     "preprocess_c_like_file"),
     ("taint-output-to-cwd", "taint/taint_analysis.py",
      _t('output_dir = os.path.join(self.options.workspace, config.TAINT_OUTPUT_DIR)', 'output_dir = os.path.join(os.getcwd(), config.TAINT_OUTPUT_DIR)'),
      "print_and_write_flows"),
